@@ -675,7 +675,9 @@ func (g *G) Stmt(nest int) []*m.N {
 	case "filter":
 		n := &m.N{K: "filter"}
 		for i, k := 0, g.intn("nfilt", 1, 3); i < k; i++ {
-			n.Names = append(n.Names, pickS(g, "filt", []string{"up", "wrap", "fid"}))
+			// flen returns a number, frepr shows the Go kind of what it is given:
+			// a later filter receives what the earlier one returned
+			n.Names = append(n.Names, pickS(g, "filt", []string{"up", "wrap", "fid", "up", "wrap", "fid", "flen", "frepr"}))
 		}
 		n.Body = g.Body(nest - 1)
 		return []*m.N{n}
